@@ -126,6 +126,7 @@ class Program:
         self._load(overlay or {})
         from .inline import inline_new_helpers, load_known
         self.inlined = inline_new_helpers({name: (m.path, m.tree) for name, m in self.modules.items()}, load_known())
+        self._drop_default_args()
         self._canonicalise_tests()
         self.renamed_back = []
         self.temps_inlined = []
@@ -310,6 +311,41 @@ class Program:
                     i += 1
                 node.args = new_args
                 node.keywords = [k for k in node.keywords if k.arg in kw]
+
+    def _drop_default_args(self):
+        """self.meth(a, -1) is self.meth(a) when every method of that name in the package declares the same positional
+        parameters and the trailing argument is the constant default of its parameter (a helper with a defaulted
+        parameter, once inlined, leaves the default spelled out at the call it forwards to)."""
+        methods: Dict[str, list] = {}
+        for m in self.modules.values():
+            for c in ast.walk(m.tree):
+                if isinstance(c, ast.ClassDef):
+                    for d in c.body:
+                        if isinstance(d, (ast.FunctionDef, ast.AsyncFunctionDef)):
+                            methods.setdefault(d.name, []).append(d)
+
+        def sig(d):
+            a = d.args
+            if a.posonlyargs or a.vararg or a.kwarg or any(isinstance(x, ast.Name) and x.id in ("staticmethod", "classmethod") for x in d.decorator_list):
+                return None
+            names = [x.arg for x in a.args][1:]
+            defaults = [None] * (len(names) - len(a.defaults)) + [ast.dump(x) if isinstance(x, (ast.Constant, ast.UnaryOp)) else None for x in a.defaults] if len(a.defaults) <= len(names) else None
+            return (tuple(names), tuple(defaults)) if defaults is not None else None
+        for m in self.modules.values():
+            for node in ast.walk(m.tree):
+                if not (isinstance(node, ast.Call) and isinstance(node.func, ast.Attribute) and isinstance(node.func.value, ast.Name) and node.func.value.id == "self"):
+                    continue
+                defs = methods.get(node.func.attr)
+                if not defs or node.keywords and any(k.arg is None for k in node.keywords) or any(isinstance(a, ast.Starred) for a in node.args):
+                    continue
+                sigs = {sig(d) for d in defs}
+                if len(sigs) != 1 or None in sigs:
+                    continue
+                names, defaults = next(iter(sigs))
+                if node.keywords or len(node.args) > len(names):
+                    continue
+                while node.args and defaults[len(node.args) - 1] is not None and ast.dump(node.args[-1]) == defaults[len(node.args) - 1]:
+                    node.args.pop()
 
     def _canonicalise_tests(self, only=None):
         """See vk/canon.py: comparison / branch / call spelling is normalised in the parsed trees."""
